@@ -176,7 +176,7 @@ Definition regions_of_maps_src (l : list (Z * Z * Z)) : list region :=
 Definition greason_of (c : gcpu) (o : gosx) (code flags nparams info0 : Z) : greason :=
   let fam := g_reason_family o in
   if fam =? 0 then
-    (if (code =? WIN_EXCEPTION_ACCESS_VIOLATION) && (1 <=? nparams) && existsb (Z.eqb info0) WIN_ACCESS_TYPES
+    (if (code =? WIN_EXCEPTION_ACCESS_VIOLATION) && g_win_av_guard nparams && existsb (Z.eqb info0) WIN_ACCESS_TYPES
      then GRWindowsAccessViolation info0 else GROther)
   else if fam =? 1 then
     (if (code =? MAC_EXC_BAD_ACCESS) && negb (existsb (Z.eqb flags) MAC_BAD_ACCESS_KERN_TYPES) &&
